@@ -15,7 +15,7 @@ TECH_E2 = TECH + "; plus MIR -> SMT-LIB2 lemmas over the 64-bit integer kernels 
 COMMON_NOTE = ("Assumes: sequential consistency (shim atomics ignore Ordering); schedule class S(d,b) of DESIGN.md section 4 "
                "(suspended operations resume in LIFO order, at most b operations start at preemption points); stated loop bounds with "
                "unwinding assertions on; whole-queue harnesses run with the memory manager replaced by never-reclaiming ledger stubs "
-               "(native replay uses the real one); futures 0.1 task layer and Mutex/Condvar are harness shims; Kani/CBMC soundness.")
+               "(native replay uses the same stubs); futures 0.1 task layer and Mutex/Condvar are harness shims; Kani/CBMC soundness.")
 
 TEXT = {
     "C01": ("Every harness decides, for ALL solver-chosen preemption sites / interfering operations / prefix lengths within its bounds, that "
